@@ -1,8 +1,8 @@
 /-
   Lemmas/ProofLemmas.lean — helper lemmas for C12 (inclusion proofs): membership form of
   the digest sets, the walk as a set of positions, `remove_all_found` as a filter, the
-  reveal / interior sets described by positions, the `elide` traversal as a pure pruning
-  function, positions of a pruned envelope.
+  reveal set described by positions, "a target lies beneath" described by positions, the
+  proof construction `revealing_paths_to` as a pure function (`proofOf`) and its positions.
 -/
 import EnvVerif.Lemmas.Paths
 namespace EnvVerif
@@ -190,19 +190,13 @@ theorem containsAll_iff_walk (p : Env) (T : List Digest) :
     containsAll p T = true ↔ ∀ d ∈ T, d ∈ walkDigests p := by
   rw [containsAll, removeAllFound_eq, filtOut_isEmpty_iff, walkDigests_eq_elements]
 
-/-! ### the reveal set and the interior set, by positions -/
+/-! ### the reveal set, by positions -/
 
 theorem mem_revealSetsList {T cur : List Digest} {as : List Env} {d : Digest} :
     d ∈ revealSetsList T cur as ↔ ∃ a ∈ as, d ∈ revealSets T cur a := by
   induction as with
   | nil => simp [revealSetsList]
   | cons a as ih => simp [revealSetsList, ih]
-
-theorem mem_interiorSetsList {T cur : List Digest} {as : List Env} {d : Digest} :
-    d ∈ interiorSetsList T cur as ↔ ∃ a ∈ as, d ∈ interiorSets T cur a := by
-  induction as with
-  | nil => simp [interiorSetsList]
-  | cons a as ih => simp [interiorSetsList, ih]
 
 /-- one step of `reveal_sets`, first output -/
 theorem revealSets_step (T cur : List Digest) (e : Env) (d : Digest) :
@@ -225,28 +219,6 @@ theorem revealSets_step (T cur : List Digest) (e : Env) (d : Digest) :
   | knownValue v dg => by_cases hm : memD T dg = true <;> simp [revealSets, Env.digest, Env.child, hm, or_comm]
   | encrypted m dg => by_cases hm : memD T dg = true <;> simp [revealSets, Env.digest, Env.child, hm, or_comm]
   | compressed c dg => by_cases hm : memD T dg = true <;> simp [revealSets, Env.digest, Env.child, hm, or_comm]
-
-/-- one step of `reveal_sets`, second output -/
-theorem interiorSets_step (T cur : List Digest) (e : Env) (d : Digest) :
-    d ∈ interiorSets T cur e ↔
-      (memD T e.digest = true ∧ (d ∈ cur ∨ (False ∧ d = e.digest))) ∨
-      ∃ st c, e.child st = some c ∧ d ∈ interiorSets T (e.digest :: cur) c := by
-  cases e with
-  | node s as dg =>
-    rw [exists_child_node]
-    by_cases hm : memD T dg = true <;>
-      simp [interiorSets, mem_interiorSetsList, Env.digest, hm]
-  | wrapped e dg =>
-    rw [exists_child_wrapped]
-    by_cases hm : memD T dg = true <;> simp [interiorSets, Env.digest, hm]
-  | assertion p o dg =>
-    rw [exists_child_assertion]
-    by_cases hm : memD T dg = true <;> simp [interiorSets, Env.digest, hm]
-  | leaf c dg => by_cases hm : memD T dg = true <;> simp [interiorSets, Env.digest, Env.child, hm]
-  | elided dg => by_cases hm : memD T dg = true <;> simp [interiorSets, Env.digest, Env.child, hm]
-  | knownValue v dg => by_cases hm : memD T dg = true <;> simp [interiorSets, Env.digest, Env.child, hm]
-  | encrypted m dg => by_cases hm : memD T dg = true <;> simp [interiorSets, Env.digest, Env.child, hm]
-  | compressed c dg => by_cases hm : memD T dg = true <;> simp [interiorSets, Env.digest, Env.child, hm]
 
 /-- `OnPath incl e p d`: `d` is the digest of an element on the chain from the root to
 position `p` — the end `p` itself counted only when `incl` holds -/
@@ -315,10 +287,6 @@ theorem revealSets_collect (T cur : List Digest) (e : Env) (d : Digest) :
     d ∈ revealSets T cur e ↔ CollectSpec True T cur e d :=
   collect_spec True T (revealSets T) (revealSets_step T) e cur d
 
-theorem interiorSets_collect (T cur : List Digest) (e : Env) (d : Digest) :
-    d ∈ interiorSets T cur e ↔ CollectSpec False T cur e d :=
-  collect_spec False T (interiorSets T) (interiorSets_step T) e cur d
-
 /-! ### the part of the invariant the `elide` traversal needs -/
 
 mutual
@@ -359,67 +327,136 @@ theorem CanonList.shape : (as : List Env) → CanonList as → ShapeList as
     exact ⟨Canon.shape a hc.1, CanonList.shape as hc.2⟩
 end
 
-/-! ### the `elide` traversal as a pure function -/
+theorem ascDigests_of_map_digest_eq {as as' : List Env} (hm : as'.map Env.digest = as.map Env.digest)
+    (hs : AscDigests as) : AscDigests as' := by
+  have key : ∀ l : List Env, AscDigests l ↔ (l.map Env.digest).Pairwise (fun a b => a.val < b.val) := by
+    intro l; simp [AscDigests, List.pairwise_map]
+  rw [key] at hs ⊢; rw [hm]; exact hs
+
+
+/-! ### "a target lies strictly beneath", by positions -/
+
+theorem hitList_iff {T : List Digest} {as : List Env} :
+    hitList T as = true ↔ ∃ a ∈ as, memD T a.digest = true ∨ hasTargetBeneath T a = true := by
+  induction as with
+  | nil => simp [hitList]
+  | cons a as ih => simp [hitList, ih, Bool.or_eq_true]
+
+/-- one step of `has_target_beneath` -/
+theorem hasTargetBeneath_step (T : List Digest) (e : Env) :
+    hasTargetBeneath T e = true ↔
+      ∃ st c, e.child st = some c ∧ (memD T c.digest = true ∨ hasTargetBeneath T c = true) := by
+  cases e with
+  | node s as dg =>
+    rw [exists_child_node (P := fun c => memD T c.digest = true ∨ hasTargetBeneath T c = true)]
+    simp [hasTargetBeneath, hitList_iff, Bool.or_eq_true]
+  | wrapped e dg =>
+    rw [exists_child_wrapped (P := fun c => memD T c.digest = true ∨ hasTargetBeneath T c = true)]
+    simp [hasTargetBeneath, Bool.or_eq_true]
+  | assertion p o dg =>
+    rw [exists_child_assertion (P := fun c => memD T c.digest = true ∨ hasTargetBeneath T c = true)]
+    simp [hasTargetBeneath, Bool.or_eq_true]
+  | leaf c dg => simp [hasTargetBeneath, Env.child]
+  | elided dg => simp [hasTargetBeneath, Env.child]
+  | knownValue v dg => simp [hasTargetBeneath, Env.child]
+  | encrypted m dg => simp [hasTargetBeneath, Env.child]
+  | compressed c dg => simp [hasTargetBeneath, Env.child]
+
+/-- `has_target_beneath` holds iff some position strictly below holds a target -/
+theorem hasTargetBeneath_iff (T : List Digest) (e : Env) :
+    hasTargetBeneath T e = true ↔
+      ∃ st t y, e.at (st :: t) = some y ∧ memD T y.digest = true := by
+  induction e using Env.induct_child with
+  | H e ih =>
+    rw [hasTargetBeneath_step]
+    constructor
+    · rintro ⟨st, c, hc, hm | hb⟩
+      · exact ⟨st, [], c, by rw [Env.at_cons_of_child hc]; rfl, hm⟩
+      · obtain ⟨st', t, y, hy, hm⟩ := (ih st c hc).mp hb
+        exact ⟨st, st' :: t, y, by rw [Env.at_cons_of_child hc]; exact hy, hm⟩
+    · rintro ⟨st, t, y, hy, hm⟩
+      obtain ⟨c, hc, hy'⟩ := Env.at_cons_some hy
+      refine ⟨st, c, hc, ?_⟩
+      cases t with
+      | nil => simp only [Env.at_nil, Option.some.injEq] at hy'; subst hy'; exact Or.inl hm
+      | cons st' t => exact Or.inr ((ih st c hc).mpr ⟨st', t, y, hy', hm⟩)
+
+/-! ### the proof construction as a pure function -/
 
 mutual
-/-- replace every topmost element whose digest satisfies `f` by its elided digest -/
-def prune (f : Digest → Bool) : Env → Env
-  | .node s as d => if f d then .elided d else .node (prune f s) (pruneList f as) d
-  | .leaf c d => if f d then .elided d else .leaf c d
-  | .wrapped e d => if f d then .elided d else .wrapped (prune f e) d
-  | .assertion p o d => if f d then .elided d else .assertion (prune f p) (prune f o) d
+/-- keep an element only where a target lies strictly beneath it; replace every other
+element by its digest -/
+def proofOf (T : List Digest) : Env → Env
+  | .node s as d =>
+    if hasTargetBeneath T (.node s as d) then .node (proofOf T s) (proofOfList T as) d else .elided d
+  | .wrapped e d =>
+    if hasTargetBeneath T (.wrapped e d) then .wrapped (proofOf T e) d else .elided d
+  | .assertion p o d =>
+    if hasTargetBeneath T (.assertion p o d) then .assertion (proofOf T p) (proofOf T o) d
+    else .elided d
+  | .leaf _ d => .elided d
   | .elided d => .elided d
-  | .knownValue v d => if f d then .elided d else .knownValue v d
-  | .encrypted m d => if f d then .elided d else .encrypted m d
-  | .compressed c d => if f d then .elided d else .compressed c d
-def pruneList (f : Digest → Bool) : List Env → List Env
+  | .knownValue _ d => .elided d
+  | .encrypted _ d => .elided d
+  | .compressed _ d => .elided d
+def proofOfList (T : List Digest) : List Env → List Env
   | [] => []
-  | a :: as => prune f a :: pruneList f as
+  | a :: as => proofOf T a :: proofOfList T as
 end
 
-theorem pruneList_eq_map (f : Digest → Bool) (as : List Env) : pruneList f as = as.map (prune f) := by
+theorem proofOfList_eq_map (T : List Digest) (as : List Env) :
+    proofOfList T as = as.map (proofOf T) := by
   induction as with
   | nil => rfl
-  | cons a as ih => simp [pruneList, ih]
+  | cons a as ih => simp [proofOfList, ih]
 
-theorem prune_digest (f : Digest → Bool) (e : Env) : (prune f e).digest = e.digest := by
-  cases e <;> simp only [prune] <;> (try split) <;> rfl
+theorem proofOf_digest (T : List Digest) (e : Env) : (proofOf T e).digest = e.digest := by
+  cases e <;> simp only [proofOf] <;> (try split) <;> rfl
 
-theorem pruneList_map_digest (f : Digest → Bool) (as : List Env) :
-    (pruneList f as).map Env.digest = as.map Env.digest := by
-  rw [pruneList_eq_map, List.map_map]
+theorem proofOfList_map_digest (T : List Digest) (as : List Env) :
+    (proofOfList T as).map Env.digest = as.map Env.digest := by
+  rw [proofOfList_eq_map, List.map_map]
   apply List.map_congr_left
-  intro a _; exact prune_digest f a
+  intro a _; exact proofOf_digest T a
 
-theorem prune_hit {f : Digest → Bool} {e : Env} (hf : f e.digest = true) : prune f e = .elided e.digest := by
-  cases e <;> simp only [Env.digest] at hf <;> simp [prune, hf, Env.digest]
+theorem proofOf_miss {T : List Digest} {e : Env} (hb : hasTargetBeneath T e = false) :
+    proofOf T e = .elided e.digest := by
+  cases e <;> first | rfl | (simp only [proofOf, hb, Bool.false_eq_true, if_false, Env.digest])
 
-/-- a non-elided result: the element was not hit and was not elided before -/
-theorem prune_not_elided {f : Digest → Bool} {e : Env} (hn : (prune f e).isElided = false) :
-    f e.digest = false ∧ e.isElided = false := by
-  cases hf : f e.digest with
-  | true => rw [prune_hit hf] at hn; cases hn
-  | false =>
-    refine ⟨rfl, ?_⟩
-    cases e <;> first | rfl | (simp [prune, Env.isElided] at hn)
+/-- the proof shows an element non-elided exactly where a target lies strictly beneath -/
+theorem proofOf_isElided (T : List Digest) (e : Env) :
+    (proofOf T e).isElided = !hasTargetBeneath T e := by
+  cases hb : hasTargetBeneath T e with
+  | false => rw [proofOf_miss hb]; rfl
+  | true =>
+    cases e <;> first | (simp [hasTargetBeneath] at hb; done) | (simp only [proofOf, hb, if_true]; rfl)
 
-theorem prune_child (f : Digest → Bool) (e : Env) (st : Step) :
-    (prune f e).child st = if f e.digest then none else (e.child st).map (prune f) := by
-  cases hf : f e.digest with
-  | true => rw [prune_hit hf]; rfl
-  | false =>
-    cases e <;> simp only [Env.digest] at hf <;> cases st <;>
-      simp [prune, hf, Env.child, pruneList_eq_map]
+/-- the proof never carries a leaf, a known value, an encrypted or a compressed element:
+nothing but shallow structure and digests -/
+theorem proofOf_cases (T : List Digest) (e : Env) :
+    (proofOf T e).isElided = true ∨ (proofOf T e).isInternal = true := by
+  cases e <;> simp only [proofOf] <;> (try split) <;>
+    simp [Env.isElided, Env.isInternal, Env.isNode, Env.isWrapped, Env.isAssertion]
 
-/-- nothing strictly above position `p` satisfies `f` -/
-def ClearAbove (f : Digest → Bool) (e : Env) (p : Path) : Prop :=
-  ∀ q z, q <+: p → q ≠ p → e.at q = some z → f z.digest = false
+theorem proofOf_child (T : List Digest) (e : Env) (st : Step) :
+    (proofOf T e).child st =
+      if hasTargetBeneath T e then (e.child st).map (proofOf T) else none := by
+  cases hb : hasTargetBeneath T e with
+  | false => rw [proofOf_miss hb]; rfl
+  | true =>
+    cases e <;> first
+      | (simp [hasTargetBeneath] at hb; done)
+      | (cases st <;> simp [proofOf, hb, Env.child, proofOfList_eq_map])
 
-theorem clearAbove_nil (f : Digest → Bool) (e : Env) : ClearAbove f e [] := by
+/-- every element strictly above position `p` has a target strictly beneath it -/
+def OpenAbove (T : List Digest) (e : Env) (p : Path) : Prop :=
+  ∀ q z, q <+: p → q ≠ p → e.at q = some z → hasTargetBeneath T z = true
+
+theorem openAbove_nil (T : List Digest) (e : Env) : OpenAbove T e [] := by
   intro q z hq hne; exact absurd (List.prefix_nil.mp hq) hne
 
-theorem clearAbove_cons {f : Digest → Bool} {e c : Env} {st : Step} (hc : e.child st = some c)
-    (p : Path) : ClearAbove f e (st :: p) ↔ f e.digest = false ∧ ClearAbove f c p := by
+theorem openAbove_cons {T : List Digest} {e c : Env} {st : Step} (hc : e.child st = some c)
+    (p : Path) : OpenAbove T e (st :: p) ↔ hasTargetBeneath T e = true ∧ OpenAbove T c p := by
   constructor
   · intro hn
     refine ⟨hn [] e List.nil_prefix (by simp) rfl, ?_⟩
@@ -432,249 +469,104 @@ theorem clearAbove_cons {f : Digest → Bool} {e c : Env} {st : Step} (hc : e.ch
     · rw [Env.at_cons_of_child hc] at hz
       exact hn t z ht (by simpa using hne) hz
 
-theorem prune_at_cons_of_clear {f : Digest → Bool} {e c : Env} {st : Step}
-    (hc : e.child st = some c) (hf : f e.digest = false) (p : Path) :
-    (prune f e).at (st :: p) = (prune f c).at p := by
-  apply Env.at_cons_of_child
-  rw [prune_child, hf, hc]; rfl
-
-/-- a position with nothing hit above it survives; its element is pruned in turn -/
-theorem prune_at_of_clear {f : Digest → Bool} {e y : Env} {p : Path} (hy : e.at p = some y)
-    (hn : ClearAbove f e p) : (prune f e).at p = some (prune f y) := by
+/-- the positions of the proof: the positions of the envelope all of whose strict ancestors
+have a target beneath them; the element there is the proof of the element there -/
+theorem proofOf_at_iff {T : List Digest} {e x : Env} {p : Path} :
+    (proofOf T e).at p = some x ↔ ∃ y, e.at p = some y ∧ x = proofOf T y ∧ OpenAbove T e p := by
   induction p generalizing e with
-  | nil => simp at hy; subst hy; rfl
+  | nil =>
+    constructor
+    · intro hx; simp at hx; subst hx; exact ⟨e, rfl, rfl, openAbove_nil T e⟩
+    · rintro ⟨y, hy, rfl, _⟩; simp at hy; subst hy; rfl
   | cons st p ih =>
-    obtain ⟨c, hc, hy'⟩ := Env.at_cons_some hy
-    obtain ⟨hf, hn'⟩ := (clearAbove_cons hc p).mp hn
-    rw [prune_at_cons_of_clear hc hf]
-    exact ih hy' hn'
-
-/-- every position of the result is a position of the original with nothing hit above -/
-theorem prune_at_inv {f : Digest → Bool} {e x : Env} {p : Path} (hx : (prune f e).at p = some x) :
-    ∃ y, e.at p = some y ∧ x = prune f y ∧ ClearAbove f e p := by
-  induction p generalizing e with
-  | nil => simp at hx; subst hx; exact ⟨e, rfl, rfl, clearAbove_nil f e⟩
-  | cons st p ih =>
-    obtain ⟨c', hc', hx'⟩ := Env.at_cons_some hx
-    rw [prune_child] at hc'
-    cases hf : f e.digest with
-    | true => simp [hf] at hc'
-    | false =>
-      simp only [hf, Bool.false_eq_true, if_false, Option.map_eq_some_iff] at hc'
-      obtain ⟨c, hc, rfl⟩ := hc'
-      obtain ⟨y, hy, hxy, hn⟩ := ih hx'
-      exact ⟨y, by rw [Env.at_cons_of_child hc]; exact hy, hxy, (clearAbove_cons hc p).mpr ⟨hf, hn⟩⟩
-
-/-- on the chain to any position, the topmost hit — or the position itself — survives -/
-theorem prune_top {f : Digest → Bool} {e y : Env} {p : Path} (hy : e.at p = some y) :
-    ∃ q z, q <+: p ∧ e.at q = some z ∧ (prune f e).at q = some (prune f z) ∧
-      (q = p ∨ f z.digest = true) := by
-  induction p generalizing e with
-  | nil => simp at hy; subst hy; exact ⟨[], e, List.prefix_refl _, rfl, rfl, Or.inl rfl⟩
-  | cons st p ih =>
-    cases hf : f e.digest with
-    | true => exact ⟨[], e, List.nil_prefix, rfl, rfl, Or.inr hf⟩
-    | false =>
+    constructor
+    · intro hx
+      obtain ⟨c', hc', hx'⟩ := Env.at_cons_some hx
+      rw [proofOf_child] at hc'
+      cases hb : hasTargetBeneath T e with
+      | false => simp [hb] at hc'
+      | true =>
+        simp only [hb, if_true, Option.map_eq_some_iff] at hc'
+        obtain ⟨c, hc, rfl⟩ := hc'
+        obtain ⟨y, hy, hxy, hn⟩ := ih.mp hx'
+        exact ⟨y, by rw [Env.at_cons_of_child hc]; exact hy, hxy, (openAbove_cons hc p).mpr ⟨hb, hn⟩⟩
+    · rintro ⟨y, hy, rfl, hn⟩
       obtain ⟨c, hc, hy'⟩ := Env.at_cons_some hy
-      obtain ⟨q, z, hq, hz, hpz, hor⟩ := ih hy'
-      refine ⟨st :: q, z, List.cons_prefix_cons.mpr ⟨rfl, hq⟩,
-        by rw [Env.at_cons_of_child hc]; exact hz,
-        by rw [prune_at_cons_of_clear hc hf]; exact hpz, ?_⟩
-      rcases hor with rfl | hor
-      · exact Or.inl rfl
-      · exact Or.inr hor
+      obtain ⟨hb, hn'⟩ := (openAbove_cons hc p).mp hn
+      have hcc : (proofOf T e).child st = some (proofOf T c) := by
+        rw [proofOf_child, hb, hc]; rfl
+      rw [Env.at_cons_of_child hcc]
+      exact ih.mpr ⟨y, hy', rfl, hn'⟩
 
-/-! ### pruning preserves `WF` and `Shape` -/
+/-! ### `revealing_paths_to` is `proofOf` -/
 
 section
-variable (h : Hash)
-
-mutual
-theorem prune_wf (f : Digest → Bool) : (e : Env) → WF h e → WF h (prune f e)
-  | .node s as d, hw => by
-    simp only [prune]
-    split
-    · simp only [WF]
-    · simp only [WF] at hw ⊢
-      exact ⟨prune_wf f s hw.1, pruneList_wf f as hw.2.1, by
-        rw [prune_digest, pruneList_map_digest]; exact hw.2.2⟩
-  | .leaf c d, hw => by simp only [prune]; split <;> simp only [WF] at hw ⊢; exact hw
-  | .wrapped e d, hw => by
-    simp only [prune]
-    split
-    · simp only [WF]
-    · simp only [WF] at hw ⊢
-      exact ⟨prune_wf f e hw.1, by rw [prune_digest]; exact hw.2⟩
-  | .assertion p o d, hw => by
-    simp only [prune]
-    split
-    · simp only [WF]
-    · simp only [WF] at hw ⊢
-      exact ⟨prune_wf f p hw.1, prune_wf f o hw.2.1, by rw [prune_digest, prune_digest]; exact hw.2.2⟩
-  | .elided d, _ => by simp only [prune, WF]
-  | .knownValue v d, hw => by simp only [prune]; split <;> simp only [WF] at hw ⊢; exact hw
-  | .encrypted m d, hw => by simp only [prune]; split <;> simp only [WF] at hw ⊢; exact hw
-  | .compressed c d, hw => by simp only [prune]; split <;> simp only [WF]
-theorem pruneList_wf (f : Digest → Bool) : (as : List Env) → WFList h as → WFList h (pruneList f as)
-  | [], _ => by simp only [pruneList, WFList]
-  | a :: as, hw => by
-    simp only [WFList] at hw; simp only [pruneList, WFList]
-    exact ⟨prune_wf f a hw.1, pruneList_wf f as hw.2⟩
-end
-
-end
-
-theorem ascDigests_of_map_digest_eq {as as' : List Env} (hm : as'.map Env.digest = as.map Env.digest)
-    (hs : AscDigests as) : AscDigests as' := by
-  have key : ∀ l : List Env, AscDigests l ↔ (l.map Env.digest).Pairwise (fun a b => a.val < b.val) := by
-    intro l; simp [AscDigests, List.pairwise_map]
-  rw [key] at hs ⊢; rw [hm]; exact hs
-
-mutual
-theorem prune_shape (f : Digest → Bool) : (e : Env) → Shape e → Shape (prune f e)
-  | .node s as d, hs => by
-    simp only [prune]
-    split
-    · simp only [Shape]
-    · simp only [Shape] at hs ⊢
-      refine ⟨prune_shape f s hs.1, pruneList_shape f as hs.2.1, ?_, ?_⟩
-      · intro hn
-        apply hs.2.2.1
-        rw [pruneList_eq_map] at hn
-        exact List.map_eq_nil_iff.mp hn
-      · exact ascDigests_of_map_digest_eq (pruneList_map_digest f as) hs.2.2.2
-  | .leaf c d, _ => by simp only [prune]; split <;> simp only [Shape]
-  | .wrapped e d, hs => by
-    simp only [prune]
-    split
-    · simp only [Shape]
-    · simp only [Shape] at hs ⊢; exact prune_shape f e hs
-  | .assertion p o d, hs => by
-    simp only [prune]
-    split
-    · simp only [Shape]
-    · simp only [Shape] at hs ⊢; exact ⟨prune_shape f p hs.1, prune_shape f o hs.2⟩
-  | .elided d, _ => by simp only [prune, Shape]
-  | .knownValue v d, _ => by simp only [prune]; split <;> simp only [Shape]
-  | .encrypted m d, _ => by simp only [prune]; split <;> simp only [Shape]
-  | .compressed c d, _ => by simp only [prune]; split <;> simp only [Shape]
-theorem pruneList_shape (f : Digest → Bool) : (as : List Env) → ShapeList as → ShapeList (pruneList f as)
-  | [], _ => by simp only [pruneList, ShapeList]
-  | a :: as, hs => by
-    simp only [ShapeList] at hs; simp only [pruneList, ShapeList]
-    exact ⟨prune_shape f a hs.1, pruneList_shape f as hs.2⟩
-end
-
-/-! ### `elide_set_with_action` with the `elide` action is `prune` -/
-
-section
-variable (h : Hash) (A : Aead) (Z : Deflate) (T : Digest → Bool) (rev : Bool)
+variable (h : Hash) (T : List Digest)
 
 theorem elide_eq_elided (e : Env) : elide e = .elided e.digest := by cases e <;> rfl
 
 mutual
-theorem elideSet_elide_eq : (e : Env) → WF h e → Shape e →
-    elideSet h A Z T rev .elide e = .ok (prune (fun d => T d != rev) e)
+theorem revealingPathsTo_eq : (e : Env) → WF h e → Shape e →
+    revealingPathsTo h T e = .ok (proofOf T e)
   | .node s as d, hw, hs => by
-    simp only [elideSet, prune]
-    split
-    · simp only [obscure, elide_eq_elided, Env.digest]
-    · simp only [WF] at hw
+    simp only [revealingPathsTo, proofOf]
+    cases hb : hasTargetBeneath T (.node s as d) with
+    | false => simp only [Bool.not_false, if_true, elide_eq_elided, Env.digest, Bool.false_eq_true, if_false]
+    | true =>
+      simp only [WF] at hw
       simp only [Shape] at hs
-      rw [elideSet_elide_eq s hw.1 hs.1, elideSetList_elide_eq as hw.2.1 hs.2.1]
-      simp only [prune_digest, bne_self_eq_false, Bool.false_eq_true, if_false, newNodeUnchecked]
-      have hne : (pruneList (fun d => T d != rev) as).isEmpty = false := by
-        rw [pruneList_eq_map]
+      simp only [Bool.not_true, Bool.false_eq_true, if_false, if_true]
+      rw [revealingPathsTo_eq s hw.1 hs.1, revealingPathsToList_eq as hw.2.1 hs.2.1]
+      have hne : (proofOfList T as).isEmpty = false := by
+        rw [proofOfList_eq_map]
         cases as with
         | nil => exact absurd rfl hs.2.2.1
         | cons a as => rfl
-      have hasc := ascDigests_of_map_digest_eq (pruneList_map_digest (fun d => T d != rev) as) hs.2.2.2
-      simp only [hne, Bool.false_eq_true, if_false, mkNode, sortByDigest_of_asc hasc, prune_digest,
-        pruneList_map_digest, ← hw.2.2]
-  | .leaf c d, _, _ => by
-    by_cases hh : (T d != rev) = true <;>
-      simp [elideSet, prune, Env.digest, obscure, elide_eq_elided, hh]
+      have hasc := ascDigests_of_map_digest_eq (proofOfList_map_digest T as) hs.2.2.2
+      simp only [newNodeUnchecked, hne, Bool.false_eq_true, if_false, mkNode, sortByDigest_of_asc hasc,
+        proofOf_digest, proofOfList_map_digest, ← hw.2.2]
   | .wrapped e d, hw, hs => by
-    simp only [elideSet, prune]
-    split
-    · simp only [obscure, elide_eq_elided, Env.digest]
-    · simp only [WF] at hw
+    simp only [revealingPathsTo, proofOf]
+    cases hb : hasTargetBeneath T (.wrapped e d) with
+    | false => simp only [Bool.not_false, if_true, elide_eq_elided, Env.digest, Bool.false_eq_true, if_false]
+    | true =>
+      simp only [WF] at hw
       simp only [Shape] at hs
-      rw [elideSet_elide_eq e hw.1 hs]
-      simp only [prune_digest, bne_self_eq_false, Bool.false_eq_true, if_false, newWrapped, ← hw.2]
+      simp only [Bool.not_true, Bool.false_eq_true, if_false, if_true]
+      rw [revealingPathsTo_eq e hw.1 hs]
+      simp only [newWrapped, proofOf_digest, ← hw.2]
   | .assertion p o d, hw, hs => by
-    simp only [elideSet, prune]
-    split
-    · simp only [obscure, elide_eq_elided, Env.digest]
-    · simp only [WF] at hw
+    simp only [revealingPathsTo, proofOf]
+    cases hb : hasTargetBeneath T (.assertion p o d) with
+    | false => simp only [Bool.not_false, if_true, elide_eq_elided, Env.digest, Bool.false_eq_true, if_false]
+    | true =>
+      simp only [WF] at hw
       simp only [Shape] at hs
-      rw [elideSet_elide_eq p hw.1 hs.1, elideSet_elide_eq o hw.2.1 hs.2]
-      simp only [newAssertion, prune_digest, ← hw.2.2]
-      simp [Env.digest]
-  | .elided d, _, _ => by
-    by_cases hh : (T d != rev) = true <;>
-      simp [elideSet, prune, Env.digest, obscure, elide_eq_elided, hh]
-  | .knownValue v d, _, _ => by
-    by_cases hh : (T d != rev) = true <;>
-      simp [elideSet, prune, Env.digest, obscure, elide_eq_elided, hh]
-  | .encrypted m d, _, _ => by
-    by_cases hh : (T d != rev) = true <;>
-      simp [elideSet, prune, Env.digest, obscure, elide_eq_elided, hh]
-  | .compressed c d, _, _ => by
-    by_cases hh : (T d != rev) = true <;>
-      simp [elideSet, prune, Env.digest, obscure, elide_eq_elided, hh]
-theorem elideSetList_elide_eq : (as : List Env) → WFList h as → ShapeList as →
-    elideSetList h A Z T rev .elide as = .ok (pruneList (fun d => T d != rev) as)
-  | [], _, _ => by simp only [elideSetList, pruneList]
+      simp only [Bool.not_true, Bool.false_eq_true, if_false, if_true]
+      rw [revealingPathsTo_eq p hw.1 hs.1, revealingPathsTo_eq o hw.2.1 hs.2]
+      simp only [newAssertion, proofOf_digest, ← hw.2.2]
+  | .leaf c d, _, _ => by simp only [revealingPathsTo, proofOf, elide_eq_elided, Env.digest]
+  | .elided d, _, _ => by simp only [revealingPathsTo, proofOf, elide_eq_elided, Env.digest]
+  | .knownValue v d, _, _ => by simp only [revealingPathsTo, proofOf, elide_eq_elided, Env.digest]
+  | .encrypted m d, _, _ => by simp only [revealingPathsTo, proofOf, elide_eq_elided, Env.digest]
+  | .compressed c d, _, _ => by simp only [revealingPathsTo, proofOf, elide_eq_elided, Env.digest]
+theorem revealingPathsToList_eq : (as : List Env) → WFList h as → ShapeList as →
+    revealingPathsToList h T as = .ok (proofOfList T as)
+  | [], _, _ => by simp only [revealingPathsToList, proofOfList]
   | a :: as, hw, hs => by
     simp only [WFList] at hw
     simp only [ShapeList] at hs
-    simp only [elideSetList, pruneList]
-    rw [elideSet_elide_eq a hw.1 hs.1, elideSetList_elide_eq as hw.2 hs.2]
-    simp only [prune_digest, bne_self_eq_false, Bool.false_eq_true, if_false]
+    simp only [revealingPathsToList, proofOfList]
+    rw [revealingPathsTo_eq a hw.1 hs.1, revealingPathsToList_eq as hw.2 hs.2]
 end
 
-end
-
-/-! ### `proof_contains_set` in closed form -/
-
-/-- first pass (`elide_revealing_set(reveal)`): hit = not in the reveal set -/
-def revealHit (T : List Digest) (e : Env) : Digest → Bool :=
-  fun d => memD (revealSets T [] e) d != true
-
-/-- the targets with no target beneath them (`target.difference(&interior)`) -/
-def elidableOf (T : List Digest) (e : Env) : List Digest :=
-  T.filter (fun d => !memD (interiorSets T [] e) d)
-
-/-- second pass (`elide_removing_set(elidable)`): hit = an elidable target -/
-def elidableHit (T : List Digest) (e : Env) : Digest → Bool :=
-  fun d => memD (elidableOf T e) d != false
-
-/-- the proof envelope, as a pure function of the envelope and the targets -/
-def proofOf (T : List Digest) (e : Env) : Env :=
-  prune (elidableHit T e) (prune (revealHit T e) e)
-
-theorem revealHit_false_iff {T : List Digest} {e : Env} {d : Digest} :
-    revealHit T e d = false ↔ d ∈ revealSets T [] e := by
-  simp [revealHit, memD_iff]
-
-theorem elidableHit_true_iff {T : List Digest} {e : Env} {d : Digest} :
-    elidableHit T e d = true ↔ d ∈ T ∧ d ∉ interiorSets T [] e := by
-  simp [elidableHit, elidableOf, memD_iff, memD_false_iff]
-
-section
-variable (h : Hash) (A : Aead) (Z : Deflate)
-
-theorem proofContainsSet_eq (e : Env) (T : List Digest) (hw : WF h e) (hs : Shape e) :
-    proofContainsSet h A Z e T =
+theorem proofContainsSet_eq (e : Env) (hw : WF h e) (hs : Shape e) :
+    proofContainsSet h e T =
       if T.all (memD (revealSets T [] e)) then .ok (some (proofOf T e)) else .ok none := by
   simp only [proofContainsSet]
   by_cases hall : T.all (memD (revealSets T [] e)) = true
   · simp only [hall, Bool.not_true, Bool.false_eq_true, if_false, if_true]
-    rw [elideSet_elide_eq h A Z _ true e hw hs]
-    simp only
-    rw [elideSet_elide_eq h A Z _ false _ (prune_wf h _ e hw) (prune_shape _ e hs)]
-    rfl
+    rw [revealingPathsTo_eq h T e hw hs]
   · simp [hall]
 
 end
@@ -687,28 +579,6 @@ theorem mem_reveal_iff {T : List Digest} {e : Env} {d : Digest} :
         ∃ q y, q <+: p ∧ e.at q = some y ∧ y.digest = d := by
   rw [revealSets_collect]
   simp [CollectSpec, OnPath]
-
-theorem mem_interior_iff {T : List Digest} {e : Env} {d : Digest} :
-    d ∈ interiorSets T [] e ↔
-      ∃ p x, e.at p = some x ∧ memD T x.digest = true ∧
-        ∃ q y, q <+: p ∧ q ≠ p ∧ e.at q = some y ∧ y.digest = d := by
-  rw [interiorSets_collect]
-  simp [CollectSpec, OnPath]
-
-theorem interior_sub_reveal {T : List Digest} {e : Env} {d : Digest}
-    (hd : d ∈ interiorSets T [] e) : d ∈ revealSets T [] e := by
-  obtain ⟨p, x, hx, hm, q, y, hq, _, hy, hyd⟩ := mem_interior_iff.mp hd
-  exact mem_reveal_iff.mpr ⟨p, x, hx, hm, q, y, hq, hy, hyd⟩
-
-/-- a revealed digest is interior or is a target -/
-theorem reveal_sub {T : List Digest} {e : Env} {d : Digest} (hd : d ∈ revealSets T [] e) :
-    d ∈ interiorSets T [] e ∨ d ∈ T := by
-  obtain ⟨p, x, hx, hm, q, y, hq, hy, hyd⟩ := mem_reveal_iff.mp hd
-  by_cases hqp : q = p
-  · subst hqp
-    rw [hx] at hy; cases hy
-    exact Or.inr (hyd ▸ (memD_iff T _).mp hm)
-  · exact Or.inl (mem_interior_iff.mpr ⟨p, x, hx, hm, q, y, hq, hqp, hy, hyd⟩)
 
 theorem targets_subset_iff_walk (T : List Digest) (e : Env) :
     (∀ d ∈ T, memD (revealSets T [] e) d = true) ↔ ∀ d ∈ T, d ∈ walkDigests e := by
@@ -724,83 +594,8 @@ theorem targets_subset_iff_walk (T : List Digest) (e : Env) :
 theorem all_memD_iff (T L : List Digest) : T.all (memD L) = true ↔ ∀ d ∈ T, memD L d = true := by
   simp [List.all_eq_true]
 
-/-! ### every target occurs in the proof -/
 
-theorem prefix_trans' {α} {a b c : List α} (h1 : a <+: b) (h2 : b <+: c) : a <+: c :=
-  List.IsPrefix.trans h1 h2
-
-/-- a revealed position survives the first pass -/
-theorem reveal_pass_at {T : List Digest} {e x y : Env} {p q : Path}
-    (hx : e.at p = some x) (hm : memD T x.digest = true) (hq : q <+: p) (hy : e.at q = some y) :
-    (prune (revealHit T e) e).at q = some (prune (revealHit T e) y) := by
-  apply prune_at_of_clear hy
-  intro q' z hq' _ hz
-  exact revealHit_false_iff.mpr (mem_reveal_iff.mpr ⟨p, x, hx, hm, q', z, hq'.trans hq, hz, rfl⟩)
-
-theorem target_in_proof {T : List Digest} {e : Env} {d : Digest} (hdT : d ∈ T)
-    (hd : d ∈ revealSets T [] e) : d ∈ walkDigests (proofOf T e) := by
-  obtain ⟨p, x, hx, hm, q, y, hq, hy, hyd⟩ := mem_reveal_iff.mp hd
-  have h1 := reveal_pass_at hx hm hq hy
-  obtain ⟨q', z, hq', hz, hpz, hor⟩ := prune_top (f := elidableHit T e) h1
-  have hzd : (prune (elidableHit T e) z).digest = z.digest := prune_digest _ _
-  rcases hor with rfl | hhit
-  · rw [h1] at hz; cases hz
-    refine mem_walkDigests_iff.mpr ⟨q', _, hpz, ?_⟩
-    rw [prune_digest, prune_digest]; exact hyd
-  · by_cases hqq : q' = q
-    · subst hqq
-      rw [h1] at hz; cases hz
-      refine mem_walkDigests_iff.mpr ⟨q', _, hpz, ?_⟩
-      rw [prune_digest, prune_digest]; exact hyd
-    · exfalso
-      obtain ⟨z0, hz0, hzz0, _⟩ := prune_at_inv hz
-      have hzd0 : z.digest = z0.digest := by rw [hzz0, prune_digest]
-      have hint : z.digest ∈ interiorSets T [] e :=
-        mem_interior_iff.mpr ⟨q, y, hy, (memD_iff _ _).mpr (hyd ▸ hdT), q', z0, hq', hqq, hz0, hzd0.symm⟩
-      exact (elidableHit_true_iff.mp hhit).2 hint
-
-/-! ### minimality -/
-
-/-- positions of the proof are positions of the envelope, with the same digest, and the
-element was hit by neither pass unless the proof shows it elided -/
-theorem proofOf_at_inv {T : List Digest} {e x : Env} {p : Path} (hx : (proofOf T e).at p = some x) :
-    ∃ y, e.at p = some y ∧ x = prune (elidableHit T e) (prune (revealHit T e) y) ∧
-      x.digest = y.digest := by
-  obtain ⟨x1, hx1, hxx1, _⟩ := prune_at_inv hx
-  obtain ⟨y, hy, hx1y, _⟩ := prune_at_inv hx1
-  refine ⟨y, hy, by rw [hxx1, hx1y], ?_⟩
-  rw [hxx1, hx1y, prune_digest, prune_digest]
-
-theorem proofOf_not_elided {T : List Digest} {e x y : Env}
-    (hxy : x = prune (elidableHit T e) (prune (revealHit T e) y)) (hn : x.isElided = false) :
-    y.digest ∈ interiorSets T [] e ∧ y.isElided = false := by
-  subst hxy
-  obtain ⟨h2, hn1⟩ := prune_not_elided hn
-  obtain ⟨h1, hny⟩ := prune_not_elided hn1
-  rw [prune_digest] at h2
-  have hrev := revealHit_false_iff.mp h1
-  refine ⟨?_, hny⟩
-  rcases reveal_sub hrev with hi | ht
-  · exact hi
-  · by_cases hi : y.digest ∈ interiorSets T [] e
-    · exact hi
-    · have := elidableHit_true_iff.mpr ⟨ht, hi⟩
-      rw [h2] at this; cases this
-
-/-- a position with nothing hit above it by either pass survives both -/
-theorem proofOf_at_of_clear {T : List Digest} {e y : Env} {p : Path} (hy : e.at p = some y)
-    (hn : ∀ q z, q <+: p → q ≠ p → e.at q = some z →
-      revealHit T e z.digest = false ∧ elidableHit T e z.digest = false) :
-    (proofOf T e).at p = some (prune (elidableHit T e) (prune (revealHit T e) y)) := by
-  have h1 : (prune (revealHit T e) e).at p = some (prune (revealHit T e) y) :=
-    prune_at_of_clear hy (fun q z hq hne hz => (hn q z hq hne hz).1)
-  apply prune_at_of_clear h1
-  intro q z hq hne hz
-  obtain ⟨z0, hz0, hzz0, _⟩ := prune_at_inv hz
-  rw [hzz0, prune_digest]
-  exact (hn q z0 hq hne hz0).2
-
-/-! ### minimality by positions -/
+/-! ### target positions -/
 
 /-- a position of `e` holding an element whose digest is a target -/
 def IsTargetPos (T : List Digest) (e : Env) (t : Path) : Prop :=
@@ -810,112 +605,46 @@ def IsTargetPos (T : List Digest) (e : Env) (t : Path) : Prop :=
 def AboveTarget (T : List Digest) (e : Env) (p : Path) : Prop :=
   ∃ t, p <+: t ∧ p ≠ t ∧ IsTargetPos T e t
 
-/-- the kind of branching (node / wrapped / assertion / no children) and the digests of
-the children -/
-def childSig : Env → Nat × List Digest
-  | .node s as _ => (0, s.digest :: as.map Env.digest)
-  | .wrapped e _ => (2, [e.digest])
-  | .assertion p o _ => (3, [p.digest, o.digest])
-  | _ => (1, [])
+/-- the element at a position has a target strictly beneath it iff the position lies
+strictly above a target position -/
+theorem hasTargetBeneath_at_iff {T : List Digest} {e y : Env} {p : Path} (hy : e.at p = some y) :
+    hasTargetBeneath T y = true ↔ AboveTarget T e p := by
+  rw [hasTargetBeneath_iff]
+  constructor
+  · rintro ⟨st, t, w, hw, hm⟩
+    refine ⟨p ++ st :: t, ⟨st :: t, rfl⟩, ?_, w, ?_, hm⟩
+    · intro heq
+      have := congrArg List.length heq
+      simp at this
+    · rw [Env.at_append, hy]; exact hw
+  · rintro ⟨t, ⟨r, rfl⟩, hne, w, hw, hm⟩
+    cases r with
+    | nil => simp at hne
+    | cons st r =>
+      rw [Env.at_append, hy] at hw
+      exact ⟨st, r, w, hw, hm⟩
 
-/-- what a collision-free hash guarantees inside one envelope: two non-obscured elements
-with the same digest branch the same way into children with the same digests -/
-def DigestFaithful (e : Env) : Prop :=
-  ∀ x ∈ elements e, ∀ y ∈ elements e, x.digest = y.digest →
-    x.isObscured = false → y.isObscured = false → childSig x = childSig y
+/-- everything strictly above a target position is open -/
+theorem openAbove_of_target {T : List Digest} {e : Env} {t : Path} (ht : IsTargetPos T e t) :
+    OpenAbove T e t := by
+  intro q z hq hne hz
+  apply (hasTargetBeneath_at_iff hz).mpr
+  exact ⟨t, hq, hne, ht⟩
 
-/-- no elided, encrypted or compressed element of `e` carries the digest of an element
-strictly above a target -/
-def NoObscuredInterior (T : List Digest) (e : Env) : Prop :=
-  ∀ x ∈ elements e, x.isObscured = true → memD (interiorSets T [] e) x.digest = false
+/-- every target position of the envelope is a position of the proof, with the target's
+digest -/
+theorem target_pos_in_proof {T : List Digest} {e : Env} {t : Path} (ht : IsTargetPos T e t) :
+    ∃ x, (proofOf T e).at t = some x ∧ memD T x.digest = true := by
+  obtain ⟨y, hy, hm⟩ := ht
+  exact ⟨proofOf T y, proofOf_at_iff.mpr ⟨y, hy, rfl, openAbove_of_target ⟨y, hy, hm⟩⟩,
+    by rw [proofOf_digest]; exact hm⟩
 
-instance (e : Env) : Decidable (DigestFaithful e) := by unfold DigestFaithful; exact inferInstance
-instance (T : List Digest) (e : Env) : Decidable (NoObscuredInterior T e) := by
-  unfold NoObscuredInterior; exact inferInstance
-
-theorem childSig_child {x y : Env} (hs : childSig x = childSig y) (st : Step) :
-    (x.child st).map Env.digest = (y.child st).map Env.digest := by
-  cases x <;> cases y <;> simp [childSig] at hs <;> cases st <;> simp [Env.child, hs]
-  case node.node.assertion s1 as1 d1 s2 as2 d2 i =>
-    rw [← List.getElem?_map, ← List.getElem?_map, hs.2]
-
-theorem not_obscured_of_child {z c : Env} {st : Step} (hc : z.child st = some c) :
-    z.isObscured = false := by
-  cases ho : z.isObscured with
-  | false => rfl
-  | true => rw [Env.child_none_of_isObscured ho] at hc; cases hc
-
-theorem follow_target {T : List Digest} {e : Env} (hF : DigestFaithful e)
-    (hO : NoObscuredInterior T e) :
-    ∀ (t' : Path) (p q : Path) (y z : Env) (st : Step), e.at p = some y → e.at q = some z →
-      y.digest = z.digest → y.isObscured = false → IsTargetPos T e (q ++ st :: t') →
-      ∃ t₂, IsTargetPos T e (p ++ st :: t₂) := by
-  intro t'
-  induction t' with
-  | nil =>
-    intro p q y z st hy hz hd hyo ⟨w, hw, hm⟩
-    rw [Env.at_append, hz] at hw
-    obtain ⟨cz, hcz, hw'⟩ := Env.at_cons_some (e := z) hw
-    simp only [Env.at_nil, Option.some.injEq] at hw'; subst hw'
-    have hsig := hF y (at_mem_elements hy) z (at_mem_elements hz) hd hyo (not_obscured_of_child hcz)
-    have hch := childSig_child hsig st
-    rw [hcz] at hch
-    obtain ⟨cy, hcy, hcd⟩ := Option.map_eq_some_iff.mp hch
-    refine ⟨[], cy, ?_, ?_⟩
-    · rw [Env.at_append, hy]; simp [Env.at_cons, hcy]
-    · rw [hcd]; exact hm
-  | cons st' t'' ih =>
-    intro p q y z st hy hz hd hyo ⟨w, hw, hm⟩
-    have hw0 := hw
-    rw [Env.at_append, hz] at hw
-    obtain ⟨cz, hcz, hw'⟩ := Env.at_cons_some (e := z) hw
-    have hsig := hF y (at_mem_elements hy) z (at_mem_elements hz) hd hyo (not_obscured_of_child hcz)
-    have hch := childSig_child hsig st
-    rw [hcz] at hch
-    obtain ⟨cy, hcy, hcd⟩ := Option.map_eq_some_iff.mp hch
-    have hcy_at : e.at (p ++ [st]) = some cy := by
-      rw [Env.at_append, hy]; simp [Env.at_cons, hcy]
-    have hcz_at : e.at (q ++ [st]) = some cz := by
-      rw [Env.at_append, hz]; simp [Env.at_cons, hcz]
-    have hint : cz.digest ∈ interiorSets T [] e := by
-      refine mem_interior_iff.mpr ⟨q ++ st :: st' :: t'', w, hw0, hm, q ++ [st], cz, ?_, ?_, hcz_at, rfl⟩
-      · exact ⟨st' :: t'', by simp⟩
-      · intro heq
-        have := congrArg List.length heq
-        simp at this
-    have hcyo : cy.isObscured = false := by
-      cases ho : cy.isObscured with
-      | false => rfl
-      | true =>
-        have := hO cy (at_mem_elements hcy_at) ho
-        rw [hcd, (memD_iff _ _).mpr hint] at this; cases this
-    obtain ⟨t₂, ht₂⟩ := ih (p ++ [st]) (q ++ [st]) cy cz st' hcy_at hcz_at hcd hcyo
-      ⟨w, by simpa using hw0, hm⟩
-    exact ⟨st' :: t₂, by simpa using ht₂⟩
-
-/-- under the two hypotheses, a non-elided element of the proof sits strictly above a
-target position of the envelope -/
-theorem proofOf_above_target {T : List Digest} {e x : Env} {p : Path} (hF : DigestFaithful e)
-    (hO : NoObscuredInterior T e) (hx : (proofOf T e).at p = some x) (hn : x.isElided = false) :
-    AboveTarget T e p := by
-  obtain ⟨y, hy, hxy, _⟩ := proofOf_at_inv hx
-  obtain ⟨hint, _⟩ := proofOf_not_elided hxy hn
-  have hyo : y.isObscured = false := by
-    cases ho : y.isObscured with
-    | false => rfl
-    | true =>
-      have := hO y (at_mem_elements hy) ho
-      rw [(memD_iff _ _).mpr hint] at this; cases this
-  obtain ⟨t0, x0, hx0, hm, q, z, hq, hne, hz, hzd⟩ := mem_interior_iff.mp hint
-  obtain ⟨r, rfl⟩ := hq
-  cases r with
-  | nil => simp at hne
-  | cons st t' =>
-    obtain ⟨t₂, ht₂⟩ := follow_target hF hO t' p q y z st hy hz hzd.symm hyo ⟨x0, hx0, hm⟩
-    refine ⟨p ++ st :: t₂, ⟨st :: t₂, rfl⟩, ?_, ht₂⟩
-    intro heq
-    have := congrArg List.length heq
-    simp at this
+theorem target_in_proof {T : List Digest} {e : Env} {d : Digest} (hdT : d ∈ T)
+    (hd : d ∈ walkDigests e) : d ∈ walkDigests (proofOf T e) := by
+  obtain ⟨p, y, hy, hyd⟩ := mem_walkDigests_iff.mp hd
+  have ht : IsTargetPos T e p := ⟨y, hy, (memD_iff _ _).mpr (hyd ▸ hdT)⟩
+  refine mem_walkDigests_iff.mpr ⟨p, proofOf T y, ?_, by rw [proofOf_digest]; exact hyd⟩
+  exact proofOf_at_iff.mpr ⟨y, hy, rfl, openAbove_of_target ht⟩
 
 /-! ### samples (a toy hash keeps the digests small; the theorems hold for every hash) -/
 
@@ -962,13 +691,12 @@ theorem inv_e0 : Inv sumH e0 := by
     exact ⟨by simp only [lf, newLeaf, Canon], ⟨canon_a1, canon_a2, trivial⟩, by simp, hasc, hslot⟩
 
 theorem all_e0 : T0.all (memD (revealSets T0 [] e0)) = true := by decide +kernel
-theorem proof_e0 (A : Aead) (Z : Deflate) :
-    proofContainsSet sumH A Z e0 T0 = .ok (some (proofOf T0 e0)) := by
-  rw [proofContainsSet_eq sumH A Z e0 T0 inv_e0.1 (Canon.shape e0 inv_e0.2), all_e0]; rfl
-theorem faithful_e0 : DigestFaithful e0 := by decide +kernel
-theorem noObscured_e0 : NoObscuredInterior T0 e0 := by decide +kernel
+theorem proof_e0 :
+    proofContainsSet sumH e0 T0 = .ok (some (proofOf T0 e0)) := by
+  rw [proofContainsSet_eq sumH T0 e0 inv_e0.1 (Canon.shape e0 inv_e0.2), all_e0]; rfl
 
-/-- F5b: the subject is a compressed element carrying the digest of the assertion `1: 2` -/
+/-- the shape of the repaired finding F5b: the subject is a compressed element carrying the
+digest of the assertion `1: 2` (an obscured copy of an element on the path to the target) -/
 def eB : Env :=
   .node (.compressed ⟨0, 0, []⟩ ⟨3⟩) [a1] (sumH.ofDigests (⟨3⟩ :: [a1].map Env.digest))
 def TB : List Digest := [⟨2⟩]
@@ -982,38 +710,12 @@ theorem inv_eB : Inv sumH eB := by
     simp only [List.mem_cons, List.not_mem_nil, or_false] at ha
     subst ha; rfl
 
-theorem faithful_eB : DigestFaithful eB := by decide +kernel
 theorem all_eB : TB.all (memD (revealSets TB [] eB)) = true := by decide +kernel
 
-/-- the compressed subject stays in the proof -/
-theorem proof_eB_subj : (proofOf TB eB).at [.subj] = some (.compressed ⟨0, 0, []⟩ ⟨3⟩) := by
-  have h1 : revealHit TB eB eB.digest = false := by decide +kernel
-  have h2 : revealHit TB eB ⟨3⟩ = false := by decide +kernel
-  have h3 : elidableHit TB eB eB.digest = false := by decide +kernel
-  have h4 : elidableHit TB eB ⟨3⟩ = false := by decide +kernel
-  have hc : eB.child .subj = some (.compressed ⟨0, 0, []⟩ ⟨3⟩) := rfl
-  have hy : eB.at [.subj] = some (.compressed ⟨0, 0, []⟩ ⟨3⟩) := rfl
-  rw [proofOf_at_of_clear hy]
-  · simp [prune, h2, h4]
-  · intro q z hq hne hz
-    have hq' : q = [] := by
-      rcases List.prefix_cons_iff.mp hq with rfl | ⟨t, rfl, ht⟩
-      · rfl
-      · have := List.prefix_nil.mp ht; subst this; exact absurd rfl hne
-    subst hq'
-    simp only [Env.at_nil, Option.some.injEq] at hz; subst hz
-    exact ⟨h1, h3⟩
-
-theorem not_above_eB : ¬ AboveTarget TB eB [.subj] := by
-  rintro ⟨t, ⟨r, rfl⟩, hne, y, hy, _⟩
-  cases r with
-  | nil => simp at hne
-  | cons st r =>
-    have : eB.at ([Step.subj] ++ st :: r) = none := by
-      simp only [List.cons_append, List.nil_append, eB]
-      rw [Env.at_cons_of_child (c := .compressed ⟨0, 0, []⟩ ⟨3⟩) rfl]
-      exact Env.at_cons_none_of_isObscured rfl st r
-    rw [this] at hy; cases hy
+/-- the compressed subject is elided in the proof: only the path `root -> 1: 2 -> 2` shows -/
+theorem proof_eB : proofOf TB eB =
+    .node (.elided ⟨3⟩) [.assertion (.elided ⟨1⟩) (.elided ⟨2⟩) ⟨3⟩] eB.digest := by
+  set_option maxRecDepth 100000 in rfl
 
 /-- `WF` alone is not enough: a node with an empty assertion list (never produced by the
 library) makes the rebuilding `assert!` fire -/
@@ -1023,15 +725,15 @@ theorem wf_eP : WF sumH eP := by
   simp only [eP, WF, WFList, List.map_nil, Env.digest, true_and]
   exact ⟨by decide +kernel, by decide +kernel⟩
 
-theorem proofContainsSet_eP (A : Aead) (Z : Deflate) :
-    proofContainsSet sumH A Z eP [⟨7⟩] = .panic "envelope.rs:new_with_unchecked_assertions:assert" := by
+theorem proofContainsSet_eP :
+    proofContainsSet sumH eP [⟨7⟩] = .panic "envelope.rs:new_with_unchecked_assertions:assert" := by
   have hR : memD (revealSets [⟨7⟩] [] eP) ⟨7⟩ = true := by decide +kernel
   simp only [proofContainsSet, List.all_cons, List.all_nil, hR, Bool.and_true, Bool.not_true,
     Bool.false_eq_true, if_false]
-  generalize memD (revealSets [⟨7⟩] [] eP) = R at hR
-  have h1 : elideSet sumH A Z R true .elide eP
+  have h1 : revealingPathsTo sumH [⟨7⟩] eP
       = .panic "envelope.rs:new_with_unchecked_assertions:assert" := by
-    simp [eP, elideSet, elideSetList, newNodeUnchecked, hR, Env.digest]
+    simp [eP, revealingPathsTo, revealingPathsToList, hasTargetBeneath, hitList, newNodeUnchecked,
+      memD, elide, Env.digest]
   rw [h1]
 
 end C12Sample
